@@ -36,10 +36,14 @@ def cases(ctx):
         for chunk in range(0, len(cls), 9):
             out.append({"id": "cdr|n=18|mode=%d|classes%d" % (mode, chunk), "meth": "cdr", "kind": "cdr", "mode": mode, "classes": cls[chunk:chunk + 9], "weight": 40})
     for meth in ("div", "checked_div"):
-        for mode in (range(8) if thorough else [ctx.seed % 8, (ctx.seed + 3) % 8]):
-            for chunk in range(0, len(pairs), 19):
+        # quick: all 361 scale pairs under two modes (one direction-dependent: Ceiling or Floor; one of the other six, by seed) and the
+        # boundary + seeded subset of pairs under the remaining six, so that every mode meets the operator's own code in every run
+        full = list(range(8)) if thorough else [(1, 3)[ctx.seed % 2], (0, 2, 4, 5, 6, 7)[ctx.seed % 6]]
+        for mode in range(8):
+            pp = pairs if mode in full else quick_pairs(ctx, 28)
+            for chunk in range(0, len(pp), 19):
                 out.append({"id": "%s|dec-dec|vv|mode=%d|pairs%d" % (meth, mode, chunk), "meth": meth, "lty": "Decimal", "rty": "Decimal", "form": "vv",
-                            "modes": [mode], "pairs": pairs[chunk:chunk + 19], "weight": 50})
+                            "modes": [mode], "pairs": pp[chunk:chunk + 19], "weight": 50})
         for form in ("rv", "vr", "rr") + (("as",) if meth == "div" else ()):
             out.append({"id": "%s|dec-dec|%s" % (meth, form), "meth": meth, "lty": "Decimal", "rty": "Decimal", "form": form,
                         "modes": [3, 5], "pairs": [(2, 7), (18, 3), (5, 5)] if not thorough else pairs[::7], "weight": 30})
